@@ -177,6 +177,16 @@ func c15IsHexName(s string) bool {
 	return true
 }
 
+// c15URLMenu: the URLs of the history are two concrete near-identical URLs (VsymC15URLs)
+var c15URLMenu bool
+
+// VsymC15URLs: histories of stores and reads over two concrete URLs that differ in spelling only.
+func VsymC15URLs() {
+	c15URLMenu = true
+	defer func() { c15URLMenu = false }()
+	VsymC15()
+}
+
 // VsymC15 explores histories of Set / Get / corrupt operations.
 func VsymC15() {
 	c15Hashes, c15Known = nil, nil
@@ -188,6 +198,14 @@ func VsymC15() {
 	urls := []string{vr.Str("url", capacity)}
 	if nURLs > 1 {
 		urls = append(urls, vr.Str("url", capacity))
+	}
+	if c15URLMenu {
+		// two concrete URLs that a normalising key would merge: equal up to letter case of scheme, host or path,
+		// a fragment, an empty query, the default port, percent-encoding, a doubled or dotted path segment,
+		// surrounding white space - byte-wise they are different URLs, and each has an entry of its own
+		others := []string{"http://CRL.example.com/ca.crl", "http://crl.example.com/ca.crl#frag", "http://crl.example.com/ca%2ecrl", "http://crl.example.com/ca.crl ", "http://crl.example.com/CA.crl",
+			"http://crl.example.com/ca.crl?", "http://crl.example.com:80/ca.crl", "HTTP://crl.example.com/ca.crl", "http://crl.example.com//ca.crl", "http://crl.example.com/a/../ca.crl", " http://crl.example.com/ca.crl", "http://crl.example.com/ca.crl?a=b#c"}
+		urls = []string{"http://crl.example.com/ca.crl", others[vr.Choice("nearURL", len(others))]}
 	}
 	cache, err := NewFileCache(root)
 	vr.Assert(err == nil && cache != nil, "the cache directory can be created")
@@ -206,7 +224,11 @@ func VsymC15() {
 		return
 	}
 	for op := 0; op < nOps; op++ {
-		kind := vr.Choice("op", 3)
+		nKinds := 3
+		if c15URLMenu {
+			nKinds = 2 // stores and reads
+		}
+		kind := vr.Choice("op", nKinds)
 		u := urls[vr.Choice("whichURL", len(urls))]
 		switch kind {
 		case 0: // store
@@ -367,7 +389,11 @@ func c15Native(cache *FileCache, root string, urls []string, nOps int) {
 		return c15MintCRL(serial, t), nu
 	}
 	for op := 0; op < nOps; op++ {
-		kind := vr.Choice("op", 3)
+		nKinds := 3
+		if c15URLMenu {
+			nKinds = 2 // stores and reads
+		}
+		kind := vr.Choice("op", nKinds)
 		u := urls[vr.Choice("whichURL", len(urls))]
 		switch kind {
 		case 0:
@@ -464,4 +490,5 @@ func c15Native(cache *FileCache, root string, urls []string, nOps int) {
 	}
 }
 
-func init() { vsymHarnesses["VsymC15"] = VsymC15 }
+func init() { vsymHarnesses["VsymC15"] = VsymC15
+	vsymHarnesses["VsymC15URLs"] = VsymC15URLs }
